@@ -21,6 +21,7 @@ pub mod ring;
 pub mod qcore;
 pub mod qcheck;
 pub mod c05;
+pub mod c05_drivers;
 pub mod c06;
 pub mod pci_model;
 pub mod regdev;
